@@ -285,7 +285,11 @@ def main():
     if a.pid not in GRIDS:
         res = dict(evaluations=0, distinct_nontrivial=0, rule="no bounded stand-in registered for this property", violations=[], samples=[])
     else:
-        res = GRIDS[a.pid](a.tier, a.seed)
+        try:
+            res = GRIDS[a.pid](a.tier, a.seed)
+        except Exception:  # noqa: BLE001  (an exception escaping the harness is a checker error, never silence)
+            import traceback
+            res = dict(evaluations=0, distinct_nontrivial=0, rule="harness raised", samples=[], failures=[], errors=[dict(what="L3 harness raised: " + traceback.format_exc()[-900:])])
         viol = []
         os.makedirs(os.path.join(VERIF, "replays"), exist_ok=True)
         for i, f in enumerate(res.pop("failures", [])):
